@@ -1,13 +1,28 @@
-// Harness for C15: interprets tree scripts against Bpp/Graph/TreeGraphImpl.h instantiated at
-// GlobalGraph.  The raw node/edge tables are read through the befriended-template trick of
-// harness/C14.cpp; the cached validity flag through the guarded hook verifCachedValid().
-// After every operation the harness prints  <result> ; <raw graph state> V <cached flag>.
+// Harness for C15: interprets scripts against
+//   case <tag> dir|undir     Bpp/Graph/TreeGraphImpl.h instantiated at GlobalGraph           (ops t.*)
+//   case <tag> dag           Bpp/Graph/DAGraphImpl.h instantiated at GlobalGraph            (ops d.*)
+//   case <tag> obsdir|obsundir  Bpp/Graph/AssociationTreeGraphImplObserver.h (objects = labels) (ops o.*)
+// The raw node/edge tables and the observer's maps are read through the befriended-template trick
+// of harness/C14.cpp; the cached validity flag of the tree through the guarded hook
+// verifCachedValid(), the two protected flags of the DAG through a derived class.
+// After every operation the harness prints  <result> ; <raw state> V <cached flag> [R <rooted flag>].
 // Calls whose C++ behaviour would be undefined or non-terminating are not made: the harness
-// evaluates the precondition (different climbing ends) and answers `ub` / `diverges`.
+// evaluates the precondition on the raw state and answers `ub` / `diverges` / `skip-cycle`.
+// Any other call runs under a watchdog (5 s) in a worker process: one that does not return answers `hang`,
+// one that kills the worker `crash:<code>`; the supervisor goes on with the next case.
 #include "common.h"
 #include <Bpp/Graph/GlobalGraph.h>
 #include <Bpp/Graph/AssociationGraphImplObserver.h>
 #include <Bpp/Graph/TreeGraphImpl.h>
+#include <Bpp/Graph/DAGraphImpl.h>
+#include <Bpp/Graph/AssociationTreeGraphImplObserver.h>
+#include <algorithm>
+#include <csignal>
+#include <cstdio>
+#include <cstdlib>
+#include <unistd.h>
+#include <sys/types.h>
+#include <sys/wait.h>
 #include <Bpp/Exceptions.h>
 #include <memory>
 #include <map>
@@ -28,6 +43,15 @@ public:
   static unsigned link(GG& g, unsigned a, unsigned b) { return g.link(a, b); }
   static std::vector<unsigned> unlink(GG& g, unsigned a, unsigned b) { return g.unlink(a, b); }
   static void setRoot(GG& g, unsigned a) { g.setRoot(a); }
+  static void linkE(GG& g, unsigned a, unsigned b, unsigned e) { g.link(a, b, e); }
+  template<class O> static decltype(O::graphidToN_)& gN(O& o) { return o.graphidToN_; }
+  template<class O> static decltype(O::graphidToE_)& gE(O& o) { return o.graphidToE_; }
+  template<class O> static decltype(O::NToGraphid_)& Ng(O& o) { return o.NToGraphid_; }
+  template<class O> static decltype(O::EToGraphid_)& Eg(O& o) { return o.EToGraphid_; }
+  template<class O> static decltype(O::indexToN_)& iN(O& o) { return o.indexToN_; }
+  template<class O> static decltype(O::indexToE_)& iE(O& o) { return o.indexToE_; }
+  template<class O> static decltype(O::NToIndex_)& Ni(O& o) { return o.NToIndex_; }
+  template<class O> static decltype(O::EToIndex_)& Ei(O& o) { return o.EToIndex_; }
 };
 }
 using namespace bpp; using namespace verif;
@@ -41,21 +65,25 @@ static std::string q(std::function<std::string()> f) {
   try { return f(); } catch (Exception&) { return "exc:bpp "; } catch (std::exception&) { return "exc:std "; }
 }
 
-struct M {
+static std::string row(const std::map<unsigned, unsigned>& m) {
+  std::string s; for (auto& kv : m) s += U(kv.first) + ":" + U(kv.second) + " "; return s;
+}
+static std::string graphState(GlobalGraph& G) {
+  std::string s = std::string("G ") + (Peek::directed(G) ? "D " : "U ") + U(Peek::hN(G)) + " " + U(Peek::hE(G)) + " " + U(Peek::root(G)) + " ";
+  for (auto& r : Peek::nodes(G)) s += "N " + U(r.first) + " O " + row(r.second.first) + "I " + row(r.second.second);
+  s += "E ";
+  for (auto& e : Peek::edges(G)) s += U(e.first) + ":" + U(e.second.first) + ":" + U(e.second.second) + " ";
+  return s;
+}
+
+struct Machine { virtual ~Machine() {} virtual std::string op(const Toks& k) = 0; };
+
+struct M : Machine {
   std::unique_ptr<Tree> t;
   explicit M(bool rooted) : t(new Tree(rooted)) {}
 
-  static std::string row(const std::map<unsigned, unsigned>& m) {
-    std::string s; for (auto& kv : m) s += U(kv.first) + ":" + U(kv.second) + " "; return s;
-  }
   std::string state() {
-    GlobalGraph& G = *t;
-    std::string s = std::string("G ") + (Peek::directed(G) ? "D " : "U ") + U(Peek::hN(G)) + " " + U(Peek::hE(G)) + " " + U(Peek::root(G)) + " ";
-    for (auto& r : Peek::nodes(G)) s += "N " + U(r.first) + " O " + row(r.second.first) + "I " + row(r.second.second);
-    s += "E ";
-    for (auto& e : Peek::edges(G)) s += U(e.first) + ":" + U(e.second.first) + ":" + U(e.second.second) + " ";
-    s += "V " + B(t->verifCachedValid());
-    return s;
+    return graphState(*t) + "V " + B(t->verifCachedValid());
   }
   // the node where climbing by single fathers ends; -1 when the climb itself would raise, -2 when it cycles
   long climbEnd(unsigned n) {
@@ -86,6 +114,10 @@ struct M {
     if (o == "t.setFather") { T.setFather(toU(k[1]), toU(k[2])); return "ok"; }
     if (o == "t.addSon") { T.addSon(toU(k[1]), toU(k[2])); return "ok"; }
     if (o == "t.removeSon") { T.removeSon(toU(k[1]), toU(k[2])); return "ok"; }
+    if (o == "t.removeSons") return "l " + list(T.removeSons(toU(k[1])));
+    if (o == "t.setFatherE") { T.setFather(toU(k[1]), toU(k[2]), toU(k[3])); return "ok"; }
+    if (o == "t.addSonE") { T.addSon(toU(k[1]), toU(k[2]), toU(k[3])); return "ok"; }
+    if (o == "t.linkE") { Peek::linkE(G, toU(k[1]), toU(k[2]), toU(k[3])); return "ok"; }
     if (o == "t.rootAt") { T.rootAt(toU(k[1])); return "ok"; }
     if (o == "t.unRoot") { T.unRoot(toU(k[1]) != 0); return "ok"; }
     // ---- queries
@@ -99,15 +131,14 @@ struct M {
       s += "ns " + q([&] { return U(C.getNumberOfSons(n)) + " "; }) + "lf " + q([&] { return B(C.isLeaf(n)) + " "; });
       return s;
     }
-    if (o == "t.leavesUnder" || o == "t.subN" || o == "t.subE") {
-      // the recursions do not terminate on a cycle reachable from the node: only on valid trees
+    if (o == "t.subN") return "l " + list(C.getSubtreeNodes(toU(k[1])));
+    if (o == "t.subE") return "l " + list(C.getSubtreeEdges(toU(k[1])));
+    if (o == "t.leavesUnder") {
+      // the recursion does not terminate on a cycle reachable from the node: only on valid trees
       if (!T.isValid()) return "notvalid";
-      // on an unrooted (undirected) tree the sons of a son include the node itself: the recursions never return
+      // on an unrooted (undirected) tree the sons of a son include the node itself: the recursion may never return
       if (!Peek::directed(G)) return "unrooted";
-      unsigned n = toU(k[1]);
-      if (o == "t.leavesUnder") return "l " + list(C.getLeavesUnderNode(n));
-      if (o == "t.subN") return "l " + list(C.getSubtreeNodes(n));
-      return "l " + list(C.getSubtreeEdges(n));
+      return "l " + list(C.getLeavesUnderNode(toU(k[1])));
     }
     if (o == "t.path" || o == "t.epath") {
       unsigned a = toU(k[1]), b = toU(k[2]);
@@ -124,15 +155,9 @@ struct M {
       std::vector<Graph::NodeId> v;
       for (size_t i = 1; i < k.size(); ++i) v.push_back((unsigned)toU(k[i]));
       if (v.empty()) return "bad-op";
-      std::set<unsigned> distinct(v.begin(), v.end());
-      if (Peek::directed(G) && v.size() > 1 && distinct.size() > 1) {
-        std::set<long> ends;
-        bool raises = false;
-        for (auto n : distinct) { long e = climbEnd(n); if (e == -1) raises = true; else ends.insert(e); }
-        // a father cycle: the lock-step climb may or may not stop; not exercised
-        if (ends.count(-2)) return "skip-cycle";
-        // every climb ends, at different father-less nodes: the loop never stops
-        if (!raises && ends.size() > 1) return "diverges";
+      if (Peek::directed(G) && v.size() > 1) {
+        // a father cycle met by one of the climbs: the loops never stop; not exercised
+        for (auto n : v) if (climbEnd(n) == -2) return "skip-cycle";
       }
       return U(C.MRCA(v));
     }
@@ -149,9 +174,215 @@ struct M {
   }
 };
 
+// ---------------------------------------------------------------------------------------- DAG
+struct Dag : DAGraphImpl<GlobalGraph> {
+  Dag() : DAGraphImpl<GlobalGraph>(true) {}
+  bool cachedValid() const { return isValid_; }
+  bool cachedRooted() const { return isRooted_; }
+};
+
+struct MD : Machine {
+  std::unique_ptr<Dag> d;
+  MD() : d(new Dag()) {}
+  std::string state() { return graphState(*d) + "V " + B(d->cachedValid()) + " R " + B(d->cachedRooted()); }
+  std::string dagOp(const Toks& k) {
+    Dag& D = *d; const Dag& C = D; GlobalGraph& G = D;
+    const std::string& o = k[0];
+    if (o == "d.createNode") return U(D.createNode());
+    if (o == "d.link") return U(Peek::link(G, toU(k[1]), toU(k[2])));
+    if (o == "d.linkE") { Peek::linkE(G, toU(k[1]), toU(k[2]), toU(k[3])); return "ok"; }
+    if (o == "d.unlink") return list(Peek::unlink(G, toU(k[1]), toU(k[2])));
+    if (o == "d.deleteNode") { D.deleteNode(toU(k[1])); return "ok"; }
+    if (o == "d.setRoot") { Peek::setRoot(G, toU(k[1])); return "ok"; }
+    if (o == "d.addSon") { D.addSon(toU(k[1]), toU(k[2])); return "ok"; }
+    if (o == "d.addSonE") { D.addSon(toU(k[1]), toU(k[2]), toU(k[3])); return "ok"; }
+    if (o == "d.addFather") { D.addFather(toU(k[1]), toU(k[2])); return "ok"; }
+    if (o == "d.addFatherE") { D.addFather(toU(k[1]), toU(k[2]), toU(k[3])); return "ok"; }
+    if (o == "d.removeSon") { D.removeSon(toU(k[1]), toU(k[2])); return "ok"; }
+    if (o == "d.removeFather") { D.removeFather(toU(k[1]), toU(k[2])); return "ok"; }
+    if (o == "d.removeSons") return "l " + list(D.removeSons(toU(k[1])));
+    if (o == "d.removeFathers") return "l " + list(D.removeFathers(toU(k[1])));
+    if (o == "d.valid") return B(D.isValid());
+    if (o == "d.rooted") return B(C.isRooted());
+    if (o == "d.belowN") return "l " + list(C.getBelowNodes(toU(k[1])));
+    if (o == "d.belowE") return "l " + list(C.getBelowEdges(toU(k[1])));
+    if (o == "d.leavesUnder") {
+      // the recursion does not terminate on a cycle reachable from the node: only on valid DAGs
+      if (!D.isValid()) return "notvalid";
+      return "l " + list(C.getLeavesUnderNode(toU(k[1])));
+    }
+    if (o == "d.qn") {
+      unsigned n = toU(k[1]);
+      std::string s;
+      s += "hf " + q([&] { return B(C.hasFather(n)) + " "; }) + "fa " + q([&] { return list(C.getFathers(n)); });
+      s += "nf " + q([&] { return U(C.getNumberOfFathers(n)) + " "; });
+      s += "sons " + q([&] { return list(C.getSons(n)); }) + "ns " + q([&] { return U(C.getNumberOfSons(n)) + " "; });
+      s += "lf " + q([&] { return B(C.isLeaf(n)) + " "; });
+      return s;
+    }
+    return "bad-op";
+  }
+  std::string op(const Toks& k) {
+    std::string r;
+    try { r = dagOp(k); }
+    catch (Exception&) { r = "exc:bpp"; }
+    catch (std::exception&) { r = "exc:std"; }
+    return r + " ; " + state();
+  }
+};
+
+// ------------------------------------------------------------------------- tree observer
+struct NObj { int label; explicit NObj(int l) : label(l) {} };
+struct EObj { int label; explicit EObj(int l) : label(l) {} };
+typedef AssociationTreeGlobalGraphObserver<NObj, EObj> TObs;
+typedef std::shared_ptr<NObj> NP;
+typedef std::shared_ptr<EObj> EP;
+
+struct MO : Machine {
+  static const int POOL = 12;
+  std::unique_ptr<TObs> obs;
+  NP np[POOL]; EP ep[POOL];
+  explicit MO(bool rooted) : obs(new TObs(rooted)) {
+    for (int i = 0; i < POOL; ++i) { np[i].reset(new NObj(i)); ep[i].reset(new EObj(i)); }
+  }
+  template<class P> static std::string lab(const P& p) { return p ? U((unsigned long)p->label) : std::string("-"); }
+  template<class Vec> static std::string vec(const Vec& v) { std::string s; for (auto& p : v) s += lab(p) + " "; return s; }
+  template<class Map> static std::string mp(const Map& m) {
+    std::vector<std::pair<long, unsigned>> v;
+    for (auto& kv : m) v.push_back(std::make_pair(kv.first ? (long)kv.first->label : -1L, kv.second));
+    std::sort(v.begin(), v.end());
+    std::string s; for (auto& x : v) s += (x.first < 0 ? std::string("-") : U((unsigned long)x.first)) + ":" + U(x.second) + " ";
+    return s;
+  }
+  std::string state() {
+    TObs& o = *obs;
+    std::string s = graphState(*o.getGraph());
+    s += "X 0 gN " + vec(Peek::gN(o)) + "gE " + vec(Peek::gE(o)) + "Ng " + mp(Peek::Ng(o)) + "Eg " + mp(Peek::Eg(o))
+      + "iN " + vec(Peek::iN(o)) + "iE " + vec(Peek::iE(o)) + "Ni " + mp(Peek::Ni(o)) + "Ei " + mp(Peek::Ei(o));
+    s += "V " + B(o.getGraph()->verifCachedValid());
+    return s;
+  }
+  static int lbl(const std::string& s) { return s == "-" ? -1 : (int)toI(s); }
+  NP N(int l) { return l < 0 ? NP() : np[l % POOL]; }
+  EP E(int l) { return l < 0 ? EP() : ep[l % POOL]; }
+  template<class V> static std::string labs(const V& v) { std::string s; for (auto& p : v) s += lab(p) + " "; return s; }
+
+  std::string obsOp(const Toks& t) {
+    TObs& o = *obs; const TObs& c = o;
+    const std::string& op = t[0];
+    if (op == "o.createNode") { o.createNode(N(lbl(t[1]))); return "ok"; }
+    if (op == "o.link") { o.link(N(lbl(t[1])), N(lbl(t[2])), E(lbl(t[3]))); return "ok"; }
+    if (op == "o.unlink") { o.unlink(N(lbl(t[1])), N(lbl(t[2]))); return "ok"; }
+    if (op == "o.deleteNode") { o.deleteNode(N(lbl(t[1]))); return "ok"; }
+    if (op == "o.addSon") { o.addSon(N(lbl(t[1])), N(lbl(t[2])), E(lbl(t[3]))); return "ok"; }
+    if (op == "o.setFather") { o.setFather(N(lbl(t[1])), N(lbl(t[2])), E(lbl(t[3]))); return "ok"; }
+    if (op == "o.setFatherCur") {
+      // with the object of the branch to the current father (none: without object)
+      EP cur;
+      try { cur = c.getEdgeToFather(N(lbl(t[1]))); } catch (Exception&) {}
+      o.setFather(N(lbl(t[1])), N(lbl(t[2])), cur);
+      return "ok";
+    }
+    if (op == "o.rootAt") { o.rootAt(N(lbl(t[1]))); return "ok"; }
+    if (op == "o.valid") return B(c.isValid());
+    if (op == "o.qn") {
+      NP a = N(lbl(t[1]));
+      std::string s;
+      s += "fa " + q([&] { return lab(c.getFatherOfNode(a)) + " "; }) + "ef " + q([&] { return lab(c.getEdgeToFather(a)) + " "; });
+      s += "sons " + q([&] { return labs(c.getSons(a)); }) + "br " + q([&] { return labs(c.getBranches(a)); });
+      return s;
+    }
+    if (op == "o.qp") {
+      NP a = N(lbl(t[1])), b = N(lbl(t[2]));
+      return "linking " + q([&] { return lab(c.getEdgeLinking(a, b)) + " "; });
+    }
+    return "bad-op";
+  }
+  std::string op(const Toks& t) {
+    std::string r;
+    try { r = obsOp(t); }
+    catch (Exception&) { r = "exc:bpp"; }
+    catch (std::exception&) { r = "exc:std"; }
+    return r + " ; " + state();
+  }
+};
+
+// The script is run by worker processes: a worker interprets the cases one after the other and
+// writes one answer line per operation to a pipe; each operation runs under a watchdog (alarm).
+// When a worker dies (the watchdog fired: `hang`; a sanitizer abort or a signal: `crash`), the
+// supervisor completes the answers of the case it was in (`hang` / `crash`, then `skipped`) and
+// starts a new worker at the next case.  The output therefore always has one line per operation.
+static const unsigned WATCHDOG = 5;
+static void onAlarm(int) { _exit(97); }
+
+static Machine* makeMachine(const Toks& t) {
+  std::string kind = t.size() > 2 ? t[2] : "dir";
+  if (kind == "dag") return new MD();
+  if (kind == "obsdir") return new MO(true);
+  if (kind == "obsundir") return new MO(false);
+  return new M(kind != "undir");
+}
+
+struct Case { Toks head; std::vector<Toks> ops; };
+
+static void worker(const std::vector<Case>& cases, size_t from, int fd) {
+  signal(SIGALRM, onAlarm);
+  FILE* out = fdopen(fd, "w");
+  for (size_t i = from; i < cases.size(); ++i) {
+    std::unique_ptr<Machine> m(makeMachine(cases[i].head));
+    for (const Toks& t : cases[i].ops) {
+      std::string a;
+      alarm(WATCHDOG);
+      try { a = m->op(t); } catch (std::exception&) { a = "exc:std"; }
+      alarm(0);
+      fputs(a.c_str(), out); fputc('\n', out);
+      fflush(out);   // a worker that is killed must not take answers with it
+    }
+  }
+  fflush(out);
+  _exit(0);
+}
+
 int main() {
-  std::unique_ptr<M> m(new M(true));
-  return runLoop(
-    [&](const Toks& t) { bool dir = !(t.size() > 2 && t[2] == "undir"); m.reset(new M(dir)); },
-    [&](const Toks& t) { return m->op(t); });
+  // read the whole script
+  std::vector<Case> cases;
+  std::string line;
+  while (std::getline(std::cin, line)) {
+    Toks t = toks(line);
+    if (t.empty() || t[0] == "#" || t[0] == "=") continue;
+    if (t[0] == "case") { cases.push_back(Case()); cases.back().head = t; continue; }
+    if (cases.empty()) { cases.push_back(Case()); cases.back().head = Toks{"case", "implicit", "dir"}; }
+    cases.back().ops.push_back(t);
+  }
+  size_t next = 0;
+  while (next < cases.size()) {
+    int fds[2];
+    if (pipe(fds) != 0) return 2;
+    fflush(stdout);
+    pid_t pid = fork();
+    if (pid < 0) return 2;
+    if (pid == 0) { close(fds[0]); worker(cases, next, fds[1]); }
+    close(fds[1]);
+    // forward the answers, keeping track of the position
+    FILE* in = fdopen(fds[0], "r");
+    size_t ci = next, oi = 0;
+    while (ci < cases.size() && cases[ci].ops.empty()) ++ci;
+    char* buf = 0; size_t cap = 0; ssize_t n;
+    while ((n = getline(&buf, &cap, in)) > 0) {
+      if (ci >= cases.size()) break;
+      fwrite(buf, 1, (size_t)n, stdout);
+      if (buf[n - 1] != '\n') fputc('\n', stdout);
+      if (++oi == cases[ci].ops.size()) { ++ci; oi = 0; while (ci < cases.size() && cases[ci].ops.empty()) ++ci; }
+    }
+    free(buf); fclose(in);
+    int st = 0; waitpid(pid, &st, 0);
+    if (ci >= cases.size()) break;
+    // the worker stopped inside case ci at operation oi
+    bool hang = WIFEXITED(st) && WEXITSTATUS(st) == 97;
+    std::string tag = hang ? "hang" : ("crash:" + std::to_string(WIFSIGNALED(st) ? -WTERMSIG(st) : WEXITSTATUS(st)));
+    for (size_t k = oi; k < cases[ci].ops.size(); ++k) puts(k == oi ? tag.c_str() : "skipped");
+    next = ci + 1;
+  }
+  fflush(stdout);
+  return 0;
 }
